@@ -437,3 +437,63 @@ fn sp_elapsed() {
     std::mem::forget(span);
     kani::cover!(e.as_nanos() > 100);
 }
+
+use crate::local::local_span_stack::verif_harness as stk;
+
+// C01 / C10 / C13: set_local_parent opens a scope under the span's issued token on the given
+// stack; dropping the guard closes it and hands over exactly one SubmitSpans(LocalSpansInner)
+// under that token (here with nothing recorded), restoring the stack depth.
+#[kani::proof]
+#[kani::unwind(3)]
+fn sp_guard_drop_pushes_local_spans() {
+    env();
+    let item = any_item(true);
+    let id: u64 = kani::any();
+    let span = mk_span(id, 5, vec![item], None);
+    let stack = Rc::new(RefCell::new(LocalSpanStack::with_capacity(4)));
+    let g = span.attach_into_stack(&stack);
+    assert!(stk::depth(&stack.borrow()) == 1, "set_local_parent did not open a scope");
+    let ctx = stk::context(&stack.borrow());
+    assert!(ctx.2 == Some(SpanId(id)), "the span is not the local parent inside its scope");
+    assert!(gc::nlog() == 0);
+    drop(g);
+    let t_end = unsafe { fastant::CLOCK };
+    assert!(stk::depth(&stack.borrow()) == 0, "dropping the guard did not close the scope");
+    assert!(gc::nlog() == 1, "closing a local-parent scope must hand over exactly one local span set");
+    let s = gc::log(0);
+    assert!(s.kind == 3 && s.set_kind == 1, "not a SubmitSpans(LocalSpansInner)");
+    assert!(s.ntok == 1 && s.tok0 == Some(issued(&item, id)), "local spans submitted under a different parent");
+    assert!(s.nspans == 0 && s.end_time == t_end);
+    std::mem::forget((span, stack));
+    kani::cover!(true);
+}
+
+// C07 / C09: set_local_parent when the thread's scope limit is reached returns a guard whose drop
+// must be harmless (nothing recorded, nothing pushed, no panic).
+#[kani::proof]
+#[kani::unwind(3)]
+fn sp_guard_when_stack_full() {
+    env();
+    let span = mk_span(kani::any(), 5, vec![any_item(true)], None);
+    let stack = Rc::new(RefCell::new(LocalSpanStack::with_capacity(0)));
+    let g = span.attach_into_stack(&stack);
+    assert!(stk::depth(&stack.borrow()) == 0);
+    drop(g);
+    assert!(gc::nlog() == 0, "a refused scope handed something to the collector");
+    std::mem::forget((span, stack));
+    kani::cover!(true);
+}
+
+// C16 / C10: set_local_parent on a no-op span opens no scope.
+#[kani::proof]
+#[kani::unwind(3)]
+fn sp_noop_set_local_parent() {
+    env();
+    let stack = Rc::new(RefCell::new(LocalSpanStack::with_capacity(4)));
+    let g = Span::noop().attach_into_stack(&stack);
+    assert!(stk::depth(&stack.borrow()) == 0, "a no-op span opened a scope");
+    drop(g);
+    assert!(gc::nlog() == 0);
+    std::mem::forget(stack);
+    kani::cover!(true);
+}
